@@ -74,7 +74,17 @@ where
         self.sec_param
     }
 
-    fn compute_dimensions(&self, _n: usize) -> (usize, usize) {
+    fn compute_dimensions(&self, n: usize) -> (usize, usize) {
+        // The expander matrices are generated for one matrix shape. A longer coefficient
+        // vector would be cut down to `self.n * self.m` entries by the caller (and a shorter
+        // one silently padded to a polynomial in more variables), so refuse other sizes.
+        assert_eq!(
+            ceil_div(n, self.n),
+            self.m,
+            "these parameters are for polynomials with {} coefficients, got {}",
+            self.n * self.m,
+            n
+        );
         (self.n, self.m)
     }
 
